@@ -123,6 +123,9 @@ def run_case(arg):
         spell_sets = [list(roots)]
         for _ in range(3):
             spell_sets.append([r.choice(spellings(r, rt, troot)) for rt in roots])
+        if not o["isolate"]:
+            # every root given twice under different spellings: each file must still be counted once
+            spell_sets.append([x for rt in roots for x in (rt, r.choice(spellings(r, rt, troot)[1:]))])
         spell_sets.append(None)  # --base-dir variant
         nontrivial = False
         for k, ss in enumerate(spell_sets):
